@@ -58,33 +58,18 @@ func (p *_RemoveUnusedPass) DoPass() *ast.Module {
 		p.funcs[i].color = white
 	}
 
-Loop:
-	for _, fn := range p.m.Funcs {
-		// start
-		if fn.Name != "" && fn.Name == p.m.Start {
-			p.markFuncReachable(p.funcs[fn.Name])
-			continue
+	// 根: start 函数, 导出函数, table elem 中的函数 (包含导入函数)
+	if p.m.Start != "" {
+		p.markRoot(p.m.Start)
+	}
+	for _, elem := range p.m.Elem {
+		for _, elemValue := range elem.Values {
+			p.markRoot(elemValue)
 		}
-
-		// table elem
-
-		for _, elem := range p.m.Elem {
-			for _, elemValue := range elem.Values {
-				if fn.Name != "" && fn.Name == elemValue {
-					p.markFuncReachable(p.funcs[fn.Name])
-					continue Loop
-				}
-			}
-		}
-
-		// export
-		for _, exp := range p.m.Exports {
-			if exp.Kind == token.FUNC {
-				if exp.Name != "" && fn.Name == exp.FuncIdx {
-					p.markFuncReachable(p.funcs[fn.Name])
-					continue Loop
-				}
-			}
+	}
+	for _, exp := range p.m.Exports {
+		if exp.Kind == token.FUNC {
+			p.markRoot(exp.FuncIdx)
 		}
 	}
 
@@ -109,6 +94,12 @@ Loop:
 	return &m
 }
 
+func (p *_RemoveUnusedPass) markRoot(name string) {
+	if fn := p.funcs[name]; fn != nil && fn.color == white {
+		p.markFuncReachable(fn)
+	}
+}
+
 func (p *_RemoveUnusedPass) markFuncReachable(fn *funcObj) {
 	fn.color = black
 	for _, ins := range fn.Body.List {
@@ -119,11 +110,7 @@ func (p *_RemoveUnusedPass) markFuncReachable(fn *funcObj) {
 func (p *_RemoveUnusedPass) markFuncReachable_ins(ins ast.Instruction) {
 	switch ins := ins.(type) {
 	case ast.Ins_Call:
-		if xFn := p.funcs[ins.X]; xFn.color == white {
-			p.markFuncReachable(xFn)
-		}
-	case ast.Ins_TableSet:
-		if xFn := p.funcs[ins.TableIdx]; xFn.color == white {
+		if xFn := p.funcs[ins.X]; xFn != nil && xFn.color == white {
 			p.markFuncReachable(xFn)
 		}
 	case ast.Ins_Block:
